@@ -60,6 +60,130 @@ theorem getLast?_cons_cons {α} (a b : α) (r : List α) : (a :: b :: r).getLast
 theorem finalOk_of_wfSteps {s : Step} (h : C01.wfSteps [s] = true) : finalOk s.1 = true := by
   rcases (wfSteps_op (op := s.1) (arg := s.2) h).1 with h1 | h1 | h1 <;> simp [finalOk, h1]
 
+/-- the `missing` recursion with a factory that returns a non-container (`0`, `''`, `None`): one
+    factory call per segment until a step that needs an object — the final assignment, or the
+    attachment of an inner value — fails; only a wildcard (no matches on a scalar) lets the call go
+    through, the scalar itself being what is attached.  No cell is created or changed. -/
+theorem tail_spec_scalar {env : MEnv} (hwf : WF env = true) (hc : classesOK env = true)
+    (sref : Val) (kind : String) (v c : Val) (hfo : freshObj kind = none) (hsc : freshScalar kind = some c) :
+    ∀ (rem : List Step), wfStar rem = true → (∀ s, rem.getLast? = some s → finalOk s.1 = true) →
+    rem ≠ [] → ∀ (fuel : Nat), rem.length ≤ fuel → ∀ (st : St),
+    match buildTail env kind v rem st.heap with
+    | some (h', c', hid, n) =>
+      ∃ st2, tailRun env sref kind fuel st rem v = (st2, .ok c') ∧ st2.heap = h' ∧
+        st2.calls = st.calls + n ∧ st2.hidden = (st.hidden || hid) ∧ Pres st.heap h' ∧
+        st.heap.length ≤ h'.length ∧ LogExt st.heap.length st.log st2.log
+    | none =>
+      ∃ st2 e, tailRun env sref kind fuel st rem v = (st2, .error e) ∧ Pres st.heap st2.heap ∧
+        st.heap.length ≤ st2.heap.length ∧ LogExt st.heap.length st.log st2.log := by
+  obtain ⟨hwf1, hx, _, _, _, _⟩ := WF_parts hwf
+  have hce := freshScalar_empty hsc
+  have hnr := emptyScalar_not_ref hce
+  intro rem
+  induction rem with
+  | nil => intro _ _ hne; exact absurd rfl hne
+  | cons s rest ih =>
+    intro hw hlast _ fuel hfuel st
+    obtain ⟨hs, hwr⟩ := wfStar_cons hw
+    cases fuel with
+    | zero => simp at hfuel
+    | succ f =>
+    simp only [tailRun, callFactory_eq, hfo, hsc]
+    generalize hst1 : ({ st with calls := st.calls + 1 } : St) = st1
+    have h1h : st1.heap = st.heap := by subst hst1; rfl
+    have h1c : st1.calls = st.calls + 1 := by subst hst1; rfl
+    have h1hid : st1.hidden = st.hidden := by subst hst1; rfl
+    have h1log : st1.log = st.log := by subst hst1; rfl
+    have hev : evalVal env st1 c (.val v) = (st1, .ok v) := rfl
+    cases rest with
+    | nil =>
+      have hl : [s].getLast? = some (s.1, s.2) := rfl
+      have hfin : finalOk s.1 = true := hlast s rfl
+      have hfe : fetch env st1.heap ([s] : List Step).dropLast 0
+          (if false then sref else c) = .ok (.leaf c) := rfl
+      rw [assignAux_fetch_ok hl hfin hev hfe]
+      simp only [show ([s] : List Step).dropLast = [] from rfl, stars, List.filter_nil,
+        List.length_nil, applyForEach, beq_self_eq_true, if_true, buildTail, hfo]
+      rw [assignOp_eq hwf hfin]
+      cases hr : refAssignOp env st1.heap s.1 c s.2 v with
+      | none => exact ⟨_, _, rfl, by rw [h1h]; exact Pres.refl _, by rw [h1h]; exact Nat.le_refl _,
+          by rw [h1log]; exact LogExt.refl _ _⟩
+      | some r =>
+        cases r with
+        | error e => exact ⟨_, _, rfl, by rw [h1h]; exact Pres.refl _, by rw [h1h]; exact Nat.le_refl _,
+            by rw [h1log]; exact LogExt.refl _ _⟩
+        | ok w => exact absurd hr (refAssignOp_scalar hnr w)
+    | cons s' rest' =>
+      cases hl : (s :: s' :: rest').getLast? with
+      | none => simp at hl
+      | some t =>
+      obtain ⟨lop, larg⟩ := t
+      have hfin : finalOk lop = true := hlast _ hl
+      have hdl : (s :: s' :: rest').dropLast = s :: (s' :: rest').dropLast := rfl
+      rcases hs with hsx | hsw
+      · -- a wildcard over a scalar: no matches; the scalar itself is the result
+        obtain ⟨sop, sarg⟩ := s
+        simp only at hsx; subst hsx
+        have hfe : fetch env st1.heap (("x", sarg) :: s' :: rest').dropLast 0
+            (if false then sref else c) = .ok (.node []) := by
+          rw [hdl]
+          simp only [Bool.false_eq_true, if_false]
+          rw [fetch_star_eq hx _ _ _ _ _ (isScope_scalar hnr), children_scalar hnr]
+          rfl
+        rw [assignAux_fetch_ok hl hfin hev hfe]
+        simp only [hdl, stars_cons_x, applyForEach, Nat.add_eq_zero_iff, Nat.one_ne_zero, and_false,
+          beq_iff_eq, if_false, Nat.add_sub_cancel, flattenN_nil, forEach, buildTail, hfo, hsc,
+          beq_self_eq_true, if_true]
+        exact ⟨_, rfl, h1h, h1c, by simp [h1hid], Pres.refl _, Nat.le_refl _,
+          by rw [h1log]; exact LogExt.refl _ _⟩
+      · -- an access step on the scalar fails: the next factory call; whatever it builds cannot be attached
+        obtain ⟨r, hr, hf⟩ := fetch_access hwf1 hc st1.heap s.1 s.2 (s' :: rest').dropLast 0 c hsw
+        obtain ⟨e, rfl⟩ := refAccess_scalar hce s.1 s.2 r hr
+        have hfe : fetch env st1.heap (s :: s' :: rest').dropLast 0
+            (if false then sref else c) = .error (.pae 0 e) := by
+          rw [hdl]; simpa using hf
+        rw [assignAux_fetch_pae hl hfin hev hfe]
+        have hop := (wfSteps_op (op := s.1) (arg := s.2) hsw)
+        have hnx : (s.1 == "x") = false := by simpa using hop.2.1
+        have hlast' : ∀ t, (s' :: rest').getLast? = some t → finalOk t.1 = true := by
+          intro t ht; exact hlast t (by rw [getLast?_cons_cons]; exact ht)
+        have ihs := ih hwr hlast' (by simp) f (by simpa using hfuel) st1
+        simp only [Nat.zero_add, List.drop_one, List.tail_cons, List.getElem?_cons_zero,
+          List.take_zero, buildTail, hfo, hsc, hnx, Bool.false_eq_true, if_false]
+        simp only [tailRun, callFactory_eq, hfo, hsc] at ihs
+        simp only [callFactory_eq, hfo, hsc]
+        cases hbt : buildTail env kind v (s' :: rest') st1.heap with
+        | none =>
+          rw [hbt] at ihs
+          obtain ⟨st2, e', hrun, hp2, hl2, hlg2⟩ := ihs
+          simp only [hrun]
+          refine ⟨_, _, rfl, ?_, ?_, ?_⟩
+          · rw [← h1h]; exact hp2
+          · rw [← h1h]; exact hl2
+          · rw [← h1h, ← h1log]; exact hlg2
+        | some res =>
+          obtain ⟨h1', inner, hid, n⟩ := res
+          rw [hbt] at ihs
+          obtain ⟨st2, hrun, hh2, hc2, hhid2, hp2, hl2, hlg2⟩ := ihs
+          simp only [hrun]
+          have hfe2 : fetch env st2.heap [] 0 c = .ok (.leaf c) := rfl
+          simp only [hfe2, stars, List.filter_nil, List.length_nil, applyForEach, beq_self_eq_true, if_true]
+          rw [assignOp_eq hwf (finalOk_of_wfSteps hsw)]
+          cases hra : refAssignOp env st2.heap s.1 c s.2 inner with
+          | none =>
+            refine ⟨_, _, rfl, ?_, ?_, ?_⟩
+            · rw [← h1h, hh2]; exact hp2
+            · rw [← h1h, hh2]; exact hl2
+            · rw [← h1h, ← h1log]; exact hlg2
+          | some ra =>
+            cases ra with
+            | error e' =>
+              refine ⟨_, _, rfl, ?_, ?_, ?_⟩
+              · rw [← h1h, hh2]; exact hp2
+              · rw [← h1h, hh2]; exact hl2
+              · rw [← h1h, ← h1log]; exact hlg2
+            | ok w => exact absurd hra (refAssignOp_scalar hnr w)
+
 /-- **the `missing` recursion is `buildTail`**: one factory call per absent segment, the tail is
     built on fresh cells only (every pre-existing cell is preserved, also on failure) -/
 theorem tail_spec {env : MEnv} (hwf : WF env = true) (hc : classesOK env = true)
@@ -87,8 +211,13 @@ theorem tail_spec {env : MEnv} (hwf : WF env = true) (hc : classesOK env = true)
     simp only [tailRun, callFactory_eq]
     cases hfo : freshObj kind with
     | none =>
+      cases hsc : freshScalar kind with
+      | some c =>
+        have := tail_spec_scalar hwf hc sref kind v c hfo hsc (s :: rest) hw hlast (by simp) (f + 1) hfuel st
+        simpa only [tailRun, callFactory_eq, hfo, hsc] using this
+      | none =>
       have : buildTail env kind v (s :: rest) st.heap = none := by
-        cases rest <;> simp [buildTail, hfo]
+        cases rest <;> simp [buildTail, hfo, hsc]
       rw [this]
       exact ⟨_, _, rfl, Pres.refl _, Nat.le_refl _, LogExt.refl _ _⟩
     | some o =>
